@@ -7,6 +7,7 @@ import (
 	"strconv"
 	"strings"
 
+	"google.golang.org/protobuf/encoding/protowire"
 	"google.golang.org/protobuf/proto"
 	"google.golang.org/protobuf/reflect/protoreflect"
 	"google.golang.org/protobuf/types/dynamicpb"
@@ -103,6 +104,7 @@ func streamHistory(r *hx.Rng, cfs []*cfile, bs *builtSet) {
 			kinds   []byte
 			negz    []bool   // the contents hold a proto3 -0.0 (finding G6) when op j runs
 			ext     []string // class suffix of the extension finding that applies to the contents when op j runs
+			oracle  bool     // oracle-only history (uses an operation History.v does not have)
 		}
 		var cases []hcase
 		var reqs []string
@@ -118,7 +120,11 @@ func streamHistory(r *hx.Rng, cfs []*cfile, bs *builtSet) {
 				// scripted op sequences come first (operation classes: 0 assign, 5 Size, 7 Marshal/MarshalTo, 9 runtime
 				// Size, 10 Unmarshal -- with unknown fields --, 11 Reset/Clone): the orders in which the caches are
 				// written by one party and read by the other, which random histories only hit by luck
-				scripts := [][]int{{10, 9, 5, 7, 7}, {10, 5, 9, 7, 5}, {0, 9, 7, 11, 7, 5}, {10, 11, 9, 7}, {0, 0, 9, 5, 7, 9, 7}, {10, 7, 9, 5, 10, 9, 7}}
+				// 20 = MarshalTo into a caller-sized buffer (no Size() on the message first), 21 = assign a top-level non-message
+				// field: oracle-only histories (History.v has no such MarshalTo; after it no size is cached for the root, so the
+				// assignment is not the stale-cache finding G14)
+				scripts := [][]int{{10, 9, 5, 7, 7}, {10, 5, 9, 7, 5}, {0, 9, 7, 11, 7, 5}, {10, 11, 9, 7}, {0, 0, 9, 5, 7, 9, 7}, {10, 7, 9, 5, 10, 9, 7},
+					{10, 20, 21, 5, 7}, {21, 21, 20, 21, 7, 5}, {10, 20, 21, 21, 20, 7}}
 				for k := 0; k < nPer+len(scripts); k++ {
 					h := &hist{google: google, md: md, mirror: dynamicpb.NewMessage(md), sized: map[string]bool{}}
 					hc := hcase{c: c, md: md, staleAt: -1, qAt: -1}
@@ -127,6 +133,9 @@ func streamHistory(r *hx.Rng, cfs []*cfile, bs *builtSet) {
 					if k >= nPer {
 						script = scripts[k-nPer]
 						nops = len(script)
+						for _, c := range script {
+							hc.oracle = hc.oracle || c == 20
+						}
 					}
 					for i := 0; i < nops; i++ {
 						var tok string
@@ -139,17 +148,22 @@ func streamHistory(r *hx.Rng, cfs []*cfile, bs *builtSet) {
 							choice = script[i]
 						}
 						switch {
-						case choice < 5: // mutation
+						case choice == 20:
+							tok, kind = "TF", 'M'
+						case choice < 5 || choice == 21: // mutation
 							var paths [][]int
 							singularPaths(h.mirror, nil, &paths)
 							p := paths[r.Intn(len(paths))]
+							if choice == 21 {
+								p = nil
+							}
 							// two out of three assignments that would meet a cached size (finding G14, outside the model's
 							// scope from there on) are replaced by a Clone, which starts again without caches
 							wouldStale := false
 							for l := 0; l <= len(p); l++ {
 								wouldStale = wouldStale || h.sized[pathKey(p[:l])]
 							}
-							if wouldStale && hc.staleAt < 0 && r.Intn(3) != 0 && !hasNegZero(md, canonical(h.mirror)) {
+							if choice != 21 && wouldStale && hc.staleAt < 0 && r.Intn(3) != 0 && !hasNegZero(md, canonical(h.mirror)) {
 								h.sized = map[string]bool{}
 								tok, kind = "K", 'R'
 								break
@@ -160,6 +174,19 @@ func streamHistory(r *hx.Rng, cfs []*cfile, bs *builtSet) {
 								h.visitSize(h.mirror, nil)
 								tok, kind = "Z", 'Z'
 								break
+							}
+							if choice == 21 {
+								var plain []protoreflect.FieldDescriptor
+								for _, f := range fds {
+									if f.Kind() != protoreflect.MessageKind && !f.IsMap() && !f.IsExtension() {
+										plain = append(plain, f)
+									}
+								}
+								if len(plain) == 0 {
+									tok, kind = "Z", 'Z'
+									break
+								}
+								fds = plain
 							}
 							fd := fds[r.Intn(len(fds))]
 							tmp := dynamicpb.NewMessage(target.Descriptor())
@@ -175,7 +202,7 @@ func streamHistory(r *hx.Rng, cfs []*cfile, bs *builtSet) {
 							enc := canonical(tmp)
 							// stale?
 							for l := 0; l <= len(p); l++ {
-								if h.sized[pathKey(p[:l])] && hc.staleAt < 0 {
+								if h.sized[pathKey(p[:l])] && hc.staleAt < 0 && !hc.oracle {
 									hc.staleAt = i
 								}
 							}
@@ -217,6 +244,24 @@ func streamHistory(r *hx.Rng, cfs []*cfile, bs *builtSet) {
 								g := &vgen{r: r}
 								for k := 1 + r.Intn(2); k > 0; k-- {
 									enc = append(enc, g.unknownField(md)...)
+								}
+								// legal, non-canonical: implicit-presence fields written out with their zero value (a length-0 bytes
+								// field decodes to an empty, non-nil slice)
+								for _, fd := range allFields(md) {
+									if fd.HasPresence() || fd.IsList() || fd.IsMap() || fd.IsExtension() || v.Has(fd) || r.Intn(2) == 0 {
+										continue
+									}
+									num := protowire.Number(fd.Number())
+									switch fd.Kind() {
+									case protoreflect.StringKind, protoreflect.BytesKind:
+										enc = protowire.AppendBytes(protowire.AppendTag(enc, num, protowire.BytesType), nil)
+									case protoreflect.Fixed32Kind, protoreflect.Sfixed32Kind, protoreflect.FloatKind:
+										enc = protowire.AppendFixed32(protowire.AppendTag(enc, num, protowire.Fixed32Type), 0)
+									case protoreflect.Fixed64Kind, protoreflect.Sfixed64Kind, protoreflect.DoubleKind:
+										enc = protowire.AppendFixed64(protowire.AppendTag(enc, num, protowire.Fixed64Type), 0)
+									default:
+										enc = protowire.AppendVarint(protowire.AppendTag(enc, num, protowire.VarintType), 0)
+									}
 								}
 								v = dynamicpb.NewMessage(md)
 								hx.Must((proto.UnmarshalOptions{AllowPartial: true, Resolver: corpusTypes}).Unmarshal(enc, v))
@@ -327,6 +372,10 @@ func streamHistory(r *hx.Rng, cfs []*cfile, bs *builtSet) {
 			}
 			if extOutside != "" {
 				sink.Count("outside-model" + extOutside)
+				continue
+			}
+			if hc.oracle {
+				sink.Count("history:oracle-only")
 				continue
 			}
 			sink.Add("history:"+bv.V.Name(), fmt.Sprintf("G HI@%s %s %d %s %s", bv.V.Name(), hc.c.Term, hc.c.Idx[hc.c.relName(hc.md)], g, strings.Join(hc.toks, " ")),
